@@ -86,7 +86,7 @@ def mentions(b, e, depth=4):
     return " ".join(out)
 
 
-@RULES.rule("R5.2", "literals are printed with the printer of their own signedness; non-finite floats keep their class", floor=8)
+@RULES.rule("R5.2", "literals are printed with the printer of their own signedness; non-finite floats keep their class", floor=10)
 def r5_2(rep):
     prog = rep.prog
     b = rep.need(prog.impl_fn("codegen::CodeGenerator", "ir::var::Var", "codegen"), "<Var as CodeGenerator>::codegen")
@@ -107,7 +107,9 @@ def r5_2(rep):
     for name, lit in (("int_expr", "i64_unsuffixed"), ("uint_expr", "u64_unsuffixed")):
         f = rep.need(prog.fn("codegen::helpers::ast_ty::" + name), "ast_ty::" + name)
         cs = [c for c in f.calls() if (c.get("callee") or "").startswith("proc_macro2::Literal::")]
-        rep.check(len(cs) == 1 and cs[0]["callee"].endswith(lit) and f.canon(cs[0]["args"][0], 3) == "param:val", "printer:" + name,
+        a0 = strip(cs[0]["args"][0]) if len(cs) == 1 else {}
+        d0 = f.local_def.get(a0.get("id")) if a0.get("k") == "Local" else None
+        rep.check(len(cs) == 1 and cs[0]["callee"].endswith(lit) and bool(d0) and d0[0][0] == "param" and not d0[1], "printer:" + name,
                   "%s prints its parameter with Literal::%s (found %s)" % (name, lit, [c["callee"] for c in cs]), f.loc(f.root))
     fe = rep.need(prog.fn("codegen::helpers::ast_ty::float_expr"), "ast_ty::float_expr")
     for q in qq.quote_sites(fe):
@@ -123,6 +125,25 @@ def r5_2(rep):
                       "NEG_INFINITY is printed for -inf", q.loc())
         elif "#val" in t:
             rep.check(qq.has_atom(atoms, "is_finite", True), "float:finite", "finite values are printed as literals", q.loc())
+    # the finite literal is the value itself, sign included: IEEE has a negative zero, `f < 0.0` does not see it
+    lits = [c for c in fe.calls() if (c.get("callee") or "").startswith("proc_macro2::Literal::f")]
+    rep.check(bool(lits), "float:literal-site", "float_expr prints finite values through proc_macro2::Literal::f64_*", fe.loc(fe.root))
+    for c in lits:
+        a = strip(c["args"][0])
+        d = fe.local_def.get(a.get("id")) if a.get("k") == "Local" else None
+        ident = bool(d) and d[0][0] == "param" and not d[1]
+        if ident:
+            rep.ok("float:finite-value-whole", "the literal is made from the parameter itself (sign bit included)", fe.loc(c))
+            continue
+        mag = a.get("k") == "MCall" and a.get("name") == "abs" and strip(a["recv"]).get("k") == "Local" and \
+            (fe.local_def.get(strip(a["recv"])["id"]) or ((None,),))[0][0] == "param"
+        signs = [x for x in fe.calls() if x["k"] == "MCall" and x.get("name") in ("is_sign_negative", "is_sign_positive", "signum", "copysign")]
+        cmps = [x for x in fe.nodes if x["k"] == "Binary" and x["op"] in ("<", ">", "<=", ">=") and
+                any(y.get("k") == "Lit" and y.get("v") in (0, 0.0, "0.0", "0") for y in (strip(x["l"]), strip(x["r"])))]
+        rep.check(mag and bool(signs) and not cmps, "float:finite-value-whole",
+                  "magnitude and sign bit are printed separately" if mag and signs and not cmps else
+                  "the literal is made from `%s` and the sign from %s: -0.0 is printed as 0.0" %
+                  (fe.canon(a, 3)[:60], "a comparison with zero" if cmps else "nothing"), fe.loc(c))
     # enumerators
     eb = [x for x in prog.bodies.values() if any(n["k"] == "Match" and any(EVV + "Signed" in pat_variants(a["pat"]) for a in n["arms"]) for n in x.walk())
           and x.path.startswith("codegen::")]
